@@ -2075,7 +2075,10 @@ class VM:
 
         def replace(*args):
             pattern = args[0] if args else ""
-            replacement = to_string(args[1]) if len(args) > 1 else "undefined"
+            replacer = args[1] if len(args) > 1 else UNDEFINED
+            # A function replacer is called for every match; anything else is a template
+            functional = isinstance(replacer, JSFunction) or callable(replacer)
+            replacement = "" if functional else to_string(replacer)
 
             if isinstance(pattern, JSRegExp):
                 # Replace with regex using microjs.regex
@@ -2084,22 +2087,52 @@ class VM:
                     is_global = "g" in pattern._flags
                     capture_count = regex_internal._capture_count
 
-                    # Handle special replacement patterns
                     def handle_replacement(match_result):
-                        result = replacement
-                        # Handle $$ escape first (must be done before other $ patterns)
-                        result = result.replace("$$", "\x00DOLLAR\x00")
-                        # $& - the matched substring
-                        result = result.replace("$&", match_result[0] or "")
-                        # $n - nth captured group
-                        for i in range(1, 10):
-                            if i <= capture_count:
-                                result = result.replace(f"${i}", match_result[i] or "")
+                        matched = match_result[0] or ""
+                        position = match_result.index
+                        captures = [match_result[i] for i in range(1, capture_count)]
+                        if functional:
+                            call_args = [matched]
+                            call_args += [UNDEFINED if c is None else c for c in captures]
+                            call_args += [position, s]
+                            return to_string(self._call_callback(replacer, call_args))
+                        # GetSubstitution: $$ $& $` $' $n $nn, scanned left to right
+                        out = []
+                        i = 0
+                        template = replacement
+                        while i < len(template):
+                            ch = template[i]
+                            nxt = template[i + 1 : i + 2]
+                            if ch != "$" or nxt == "":
+                                out.append(ch)
+                                i += 1
+                            elif nxt == "$":
+                                out.append("$")
+                                i += 2
+                            elif nxt == "&":
+                                out.append(matched)
+                                i += 2
+                            elif nxt == "`":
+                                out.append(s[:position])
+                                i += 2
+                            elif nxt == "'":
+                                out.append(s[position + len(matched) :])
+                                i += 2
+                            elif nxt.isdigit() and nxt.isascii():
+                                digits = nxt
+                                third = template[i + 2 : i + 3]
+                                if third.isdigit() and third.isascii() and int(nxt + third) <= len(captures):
+                                    digits = nxt + third
+                                index = int(digits)
+                                if 1 <= index <= len(captures):
+                                    out.append(captures[index - 1] or "")
+                                else:
+                                    out.append("$" + digits)
+                                i += 1 + len(digits)
                             else:
-                                result = result.replace(f"${i}", "")
-                        # Restore escaped dollars
-                        result = result.replace("\x00DOLLAR\x00", "$")
-                        return result
+                                out.append("$")
+                                i += 1
+                        return "".join(out)
 
                     result_parts = []
                     last_end = 0
@@ -2134,7 +2167,7 @@ class VM:
                 # String replace - only replace first occurrence
                 search = to_string(pattern)
                 # Handle special replacement patterns
-                repl = replacement
+                repl = replacement if not functional else to_string(replacer)
                 if "$$" in repl:
                     repl = repl.replace("$$", "\x00DOLLAR\x00")
                 if "$&" in repl:
@@ -2154,7 +2187,7 @@ class VM:
                 # replaceAll with regex requires global flag
                 if "g" not in pattern._flags:
                     raise JSTypeError("replaceAll called with a non-global RegExp")
-                return replace(pattern, replacement)
+                return replace(*args)
             else:
                 # String replaceAll - replace all occurrences
                 search = to_string(pattern)
